@@ -183,6 +183,18 @@ def check_case(ctx, c, pm):
         ctx.violation("parts-equal", "parse(name-[epoch:]version-release.arch) returns the generating parts",
                       {"case": c, "string": s}, observed=got, expected=want)
         return
+    # the returned dict belongs to the caller: editing it must not change what a later parse of the same string returns
+    try:
+        got["epoch"] = None
+        got["name"] = "edited-by-caller"
+        again = parse_nvra(s)
+    except Exception as e:
+        again = "raised %s: %s" % (type(e).__name__, e)
+    bad = not (isinstance(again, dict) and dict((k, again.get(k)) for k in want) == want)
+    ctx.monitor("parse-independent-of-history", fired=bad)
+    if bad:
+        ctx.violation("parse-independent-of-history", "parsing returns exactly the parts of the string it is given, whatever was parsed "
+                      "(or done with earlier results) before", {"case": c, "string": s}, observed=again, expected=want)
     # M2 fixed point of canonical re-format
     canon = canonical(c)
     try:
